@@ -359,3 +359,59 @@ PROPS['C01'] = {
     'exhaustive_scope': 'N <= 1024 x the layout family is complete; lengths above 1024 are a lattice over every binary depth to 62',
     'assumptions': COMMON_ASSUME + ["the layout of a storage node depends on T only through (size, align), which the grid covers up to 64/64; field-by-field construction through ConstDefault is decided under C19"],
 }
+
+
+def own_part():
+    """C03: quick = dev build (debug assertions on) at the quick caps; thorough = release build at the deep caps plus the dev build at the quick caps."""
+    def run(part, tier):
+        cargo_build('e_own', 'dev')
+        res = run_engine(bin_path('e_own', 'dev'), 'C03', 'quick', shards=1, timeout=3600)
+        for v in res['violations']:
+            v['substrate'] = 'dev'
+        subs = {'dev(opt-level=0,debug-assertions)': {'evaluations': res['result'].get('evaluations'), 'states': res['result'].get('states'), 'violations': len(res['violations'])}}
+        if tier == 'thorough':
+            cargo_build('e_own', 'release')
+            r2 = run_engine(bin_path('e_own', 'release'), 'C03', 'thorough', shards=1, timeout=4 * 3600, label='release')
+            for v in r2['violations']:
+                v['substrate'] = 'release'
+            subs['release(opt-level=3)'] = {'evaluations': r2['result'].get('evaluations'), 'states': r2['result'].get('states'), 'violations': len(r2['violations'])}
+            viols = res['violations'] + r2['violations']
+            merged = r2['result']
+            for k in ('evaluations', 'distinct_nontrivial', 'states', 'transitions'):
+                merged[k] = merged.get(k, 0) + res['result'].get(k, 0)
+            merged.setdefault('per_unit', {}).update({'dev:' + k: v for k, v in res['result'].get('per_unit', {}).items()})
+            res = {'violations': viols, 'result': merged}
+        res['substrates'] = subs
+        return res
+
+    def replay(part, body):
+        prof = 'release' if body.get('substrate') == 'release' else 'dev'
+        cargo_build('e_own', prof)
+        rc, out, err = run_engine_once(bin_path('e_own', prof), ['--mode', 'C03', '--tier', 'thorough', '--only', body['desc']], None, 600)
+        viols, result, _ = parse_engine_output(out)
+        if rc not in (0, 2) or result is None:
+            return [{'desc': body['desc'], 'what': f'process died (status {rc}): {err[-400:]}'}]
+        if result.get('evaluations', 0) == 0:
+            raise Machinery(f"replay descriptor matched no case: {body['desc']}")
+        return viols
+    return {'name': 'ownership-pool-bfs', 'run': run, 'replay': replay}
+
+
+PROPS['C03'] = {
+    'level': 'model_checking',
+    'technique': 'explicit-state BFS to fixpoint over pools of live containers: every ownership-moving operation from every reachable pool state, replayed on the real code, against a Vec-of-ids reference model and a drop ledger',
+    'parts': [own_part()],
+    'rule': ("system = a pool of live containers holding identity-carrying elements: GenericArray, its by-value iterator (with origin and position), native array, tuple, Vec, Box<[T]>, Box<GenericArray>, vec::IntoIter (boxed into_iter), nested GenericArray, and elements "
+             "handed back to the caller. Alphabet (60 operations, each consuming and producing pool members, so outputs of one are inputs of the next): generate (stack, boxed, nested), drop, into_iter, next, next_back, nth(k)/nth_back(k) for every k in 0..=len+1, "
+             "iterator clone, fold/rfold (dropping), count, last, collect into array / Box / Vec, append, prepend, pop_back, pop_front, split at every K, concat, remove(i)/swap_remove(i) for every i, map (pass-through, replacing, & and &mut forms), zip (keep left, keep right, "
+             "&x&, owned x &, &mut x owned), fold, Clone, flatten, unflatten (every divisor), to/from native array, to/from tuple, to Vec / Box<[T]> and back (right length and both neighbouring wrong lengths), Box::new / unbox, into_vec, into_boxed_slice, "
+             "try_from_vec, try_from_boxed_slice, boxed into_iter + next/next_back, boxed map/zip/fold/clone. Bounds (Lmax, containers, live elements): quick (3,3,3) and (5,2,5) for 4-byte tracked, (3,2,4) zero-sized tracked, (2,2,3) 24-byte tracked; "
+             "thorough (5,3,6), (4,3,5) zero-sized, (3,3,4) 24-byte and plain u32, in the release build. State key = sorted multiset of (kind, type-level length, outer length, element count, iterator front/back/origin). After every transition: each container's contents equal "
+             "the reference, live ids undropped, all other ids dropped exactly once, nothing observed after drop (zero-sized: totals), and dropping the whole post-state leaves every element dropped exactly once. A case is one (state, operation)."),
+    'exhaustive': True,
+    'exhaustive_scope': 'BFS to fixpoint (no depth bound) within the stated caps on length, pool size and live elements; fixpoint_reached is reported per unit',
+    'assumptions': COMMON_ASSUME + [
+        "state-key soundness: the crate is parametric in the element type, so its behaviour can depend only on container kind, type-level length, iterator indices and origin - never on element identities; containers of equal shape are interchangeable",
+        "elements created by an operation (generate, replacing map, clone) are identified by reading the new container; their creation order is decided under C08, not here",
+    ],
+}
